@@ -46,8 +46,9 @@ let nmin x =
 let next_pow2 n = if ZZ.leq n ZZ.one then ZZ.one else ZZ.shift_left ZZ.one (ZZ.numbits (ZZ.pred n))
 
 (* ---- memoised model functions of a node index / leaf index (pure functions) *)
-let memo f = let t = Hashtbl.create 4096 in
-  fun x -> let k = s x in match Hashtbl.find_opt t k with Some v -> v | None -> let v = f x in Hashtbl.add t k v; v
+module ZH = Hashtbl.Make (struct type t = ZZ.t let equal = ZZ.equal let hash = ZZ.hash end)
+let memo f = let t = ZH.create 4096 in
+  fun x -> match ZH.find_opt t x with Some v -> v | None -> let v = f x in ZH.add t x v; v
 let m_rllh = memo mm_right_lineage_length_and_own_height
 let m_rlln = memo mm_right_lineage_length_from_node_index
 let m_parent = memo mm_parent
